@@ -560,6 +560,25 @@ func (e *Enc) evalCall(env *Env, n *ast.CallExpr) TV {
 				}
 			}
 		}
+		// method call on a value: only deterministic pure functions (contract "function")
+		if fn, recvArgs, disp := e.findCallee(env.pkg, n.Fun, env); fn != nil {
+			con := e.L.contractOf(fn)
+			if con == nil || !con.Function {
+				e.evalFail(env, "%s is not a contract `function`", disp)
+			}
+			var args []Val
+			for i, a := range append(recvArgs, n.Args...) {
+				tv := e.eval(env, a)
+				var pt types.Type
+				if i < len(fn.Params) {
+					pt = fn.Params[i].Type()
+				}
+				v, _ := e.materialize(env, tv, pt)
+				args = append(args, v)
+			}
+			rt := fn.Signature.Results().At(0).Type()
+			return TV{V: e.funcResult(con, e.L.funcName(fn), 0, rt, args, fn.Signature, fn), Ty: rt}
+		}
 		e.evalFail(env, "unsupported call %v", types.ExprString(n.Fun))
 	case *ast.ParenExpr, *ast.StarExpr, *ast.ArrayType:
 		e.evalFail(env, "unsupported conversion syntax")
@@ -701,6 +720,17 @@ func (e *Enc) evalCall(env *Env, n *ast.CallExpr) TV {
 		then := e.constFor("uoThen", sel(e.byteMem(env.old), a.Arr))
 		return TV{V: Sc{T{fmt.Sprintf("(forall ((%s (_ BitVec 64))) (! (=> (not (bvult (bvsub %s %s) %s)) (= (select %s %s) (select %s %s))) :pattern ((select %s %s))))",
 			q, q, add(a.Off, lo).S, sub(hi, lo).S, now.S, q, then.S, q, now.S, q), SBool}}, Ty: boolT}
+	case "oldMemUnchanged":
+		// every byte array that existed at function entry still has its entry contents
+		if env.old == nil {
+			e.evalFail(env, "oldMemUnchanged needs an entry state")
+		}
+		e.nfresh++
+		q := fmt.Sprintf("a!%d", e.nfresh)
+		now := e.constFor("omNow", e.byteMem(env.st))
+		then := e.constFor("omThen", e.byteMem(env.old))
+		return TV{V: Sc{T{fmt.Sprintf("(forall ((%s (_ BitVec 64))) (! (=> (bvult %s %s) (= (select %s %s) (select %s %s))) :pattern ((select %s %s))))",
+			q, q, env.old.allocArr.S, now.S, q, then.S, q, now.S, q), SBool}}, Ty: boolT}
 	case "isnil":
 		a := e.eval(env, n.Args[0])
 		return TV{V: Sc{e.isNil(env, a.V)}, Ty: boolT}
